@@ -121,7 +121,7 @@ ID_FORMATS = ("%d", "%d", "%d", "%.1f", "%.6e")
 SCHEDULES = ("even", "even", "even", "uneven", "uneven", "repeated", "back", "all-equal")
 PARTIAL_MASKS_2D = ((0, 1), (1, 0))
 # sizes around the block sizes a "vectorised" loop typically uses (EXTENSION_3 class 1)
-NS_QUICK = (31, 32, 33, 63, 64, 65, 99, 100, 101, 127, 128, 129, 133)
+NS_QUICK = (31, 32, 33, 33, 63, 64, 65, 65, 99, 100, 101, 101, 127, 128, 129, 129, 129, 133)   # B + 1 weighted up
 NS_THOROUGH = (170, 199, 200, 201, 255, 256, 257, 266, 341, 499, 500, 501, 511, 512, 513, 1023, 1025)
 CN_BIG_QUICK = (9, 10, 11, 31, 32, 33, 63, 64, 65)
 CN_BIG_THOROUGH = (99, 100, 101, 127, 128, 129)
@@ -1266,6 +1266,9 @@ def check_history(case):
 def sized_case(draw, Ns, cn_big, frames=(1, 2), **kw):
     """Sizes around typical block sizes (particles; neighbours per particle around the default Nmax = 10 and around
     32 / 64), dispatched over the four groups of quantities."""
+    # the size is the FIRST choice of the case (Hypothesis varies the head of an example most): flat size histogram
+    if Ns is not None:
+        Ns = (draw(pick(Ns)),)
     what = draw(pick(["order", "order", "scorr", "tcorr", "tavg"]))
     common = dict(Ns=Ns, cn_big=cn_big, **kw)
     if what == "order":
@@ -1330,7 +1333,7 @@ FACETS = [
           rule="lthorder, time_average (both modes), spatial_corr, time_corr twice each on one object in a drawn order, "
                "interleaved with a second object of the same l (other data, in half of the cases the same shape): each answer "
                "is the reference of its own call, all results handed out earlier are bit-for-bit unchanged at the end"),
-    Facet("sizes", sized_case(NS_QUICK, CN_BIG_QUICK, frames=(1, 3)), check_sized, quick=200, thorough=4000, describe=describe, shards_quick=3,
+    Facet("sizes", sized_case(NS_QUICK, CN_BIG_QUICK, frames=(1, 3)), check_sized, quick=200, thorough=4000, describe=describe, shards_quick=8,
           rule="N in {31..33, 63..65, 99..101, 127..129, 133} and 9..11 / 31..33 / 63..65 neighbours per particle (default "
                "Nmax = 10 truncating or not), all four groups of quantities"),
     Facet("sizes_large", sized_case(NS_THOROUGH, CN_BIG_QUICK + CN_BIG_THOROUGH), check_sized, quick=0, thorough=640, describe=describe,
